@@ -29,6 +29,7 @@ from __future__ import annotations
 
 from pyiron_workflow import as_function_node, as_macro_node
 from pyiron_workflow.channels import InputSignal, OutputSignal
+from pyiron_workflow.nodes.function import Function
 
 
 class Boom(RuntimeError):
@@ -58,7 +59,8 @@ HINT_TYPES = {"int": int, "str": str, "bool": bool}
 
 def _mk(name: str):
     ins, outs = SPECS[name]
-    params = ", ".join(f"{lab}: {h} = {IN_DEFAULT[lab]}" if h else f"{lab}={IN_DEFAULT[lab]}" for lab, h in ins)
+    dflt = {"int": "0", "str": "'x'", "bool": "True"}
+    params = ", ".join(f"{lab}: {h} = {dflt[h]}" if h else f"{lab}={IN_DEFAULT[lab]}" for lab, h in ins)
     hinted = all(h for _l, h in outs)
     ret = f" -> tuple[{', '.join(h for _l, h in outs)}]" if hinted else ""
     vals = []
@@ -83,13 +85,22 @@ for _n in SPECS:
         globals()[_n] = _mk(_n)
 
 
-class TS(globals()["TA"]):  # type: ignore[misc]
-    """TA with two extra signal channels (cf. `standard.If`)"""
+class TS(Function):
+    """the TA interface with two extra signal channels (cf. `standard.If`)"""
+
+    _output_labels = ("oi", "os", "ob")
+    _validate_output_labels = False
 
     def __init__(self, *args, **kwargs):
         super().__init__(*args, **kwargs)
         self.signals.input.xin = InputSignal("xin", self, self.run)
         self.signals.output.xout = OutputSignal("xout", self)
+
+    @staticmethod
+    def node_function(i: int = 0, s: str = "x", u=None, b: bool = True) -> tuple[int, str, bool]:
+        if u == "boom":
+            raise Boom("TS")
+        return 0, "x", True
 
 
 @as_macro_node("o")
